@@ -157,7 +157,11 @@ def run_case(case):
             info["steps"] = steps
             peer.close()
             await asyncio.sleep(1)
-            await asyncio.wait_for(server.close(), 1e4)
+            try:
+                await asyncio.wait_for(server.close(), 1e4)
+            except asyncio.TimeoutError:
+                # (a session whose dispatcher died without closing its control connection)
+                viol.append({"clause": "session-ended", "subject": "server-close-hangs", "detail": f"after the history {[list(o[:2]) for o in ops]} and the peer's disconnect, Server.close() did not complete within 10000 virtual seconds"[:400]})
 
         world.run(main())
         gc.collect()
